@@ -21,6 +21,7 @@ pub mod c15;
 pub mod c16;
 pub mod c17;
 pub mod c18;
+pub mod c19;
 
 pub fn run(id: &str, tier: Tier, seed: u64) -> Option<i32> {
     Some(match id {
@@ -42,6 +43,7 @@ pub fn run(id: &str, tier: Tier, seed: u64) -> Option<i32> {
         "C16" => c16::run(tier, seed),
         "C17" => c17::run(tier, seed),
         "C18" => c18::run(tier, seed),
+        "C19" => c19::run(tier, seed),
         _ => return None,
     })
 }
@@ -62,6 +64,7 @@ pub fn replay(prop: &str, case: &serde_json::Value) -> Result<u64, String> {
             c10::replay(case)
         }
         "c16-history" => c16::replay(case),
+        "c19-sequence" | "c19-pair" => c19::replay(case),
         "c18-schedule" | "c18-first-use" | "c18-free-running" => c18::replay(case),
         "c17-text" | "c17-step" | "c17-builtin" => c17::replay(case),
         "c14-doc" | "c14-roundtrip" => c14::replay(case),
